@@ -56,6 +56,7 @@ class SubstituteInterpretation(Interpretation):
         super().__init__("subs")
         self.subs = subs
         self.base_interpretation = base_interpretation
+        self.fresh = frozenset()  # fresh names of the term being rebuilt
         assert isinstance(subs, tuple)
         assert all(isinstance(v, Funsor) for k, v in subs)
 
@@ -66,7 +67,11 @@ class SubstituteInterpretation(Interpretation):
     def interpret(self, cls, *args):
         with self.base_interpretation:
             expr = cls(*args)
-            fresh_subs = tuple((k, v) for k, v in self.subs if k in expr.fresh)
+            # Substitute only names that are fresh in the original term; names
+            # that the (already substituted) children introduced must not be
+            # substituted a second time, even if expr evaluated to a term
+            # such as a Tensor that reports all of its inputs as fresh.
+            fresh_subs = tuple((k, v) for k, v in self.subs if k in self.fresh)
             if fresh_subs:
                 expr = instrument.debug_logged(expr.eager_subs)(fresh_subs)
             if instrument.PROFILE:
@@ -91,7 +96,7 @@ def substitute(expr, subs):
 
     env = interpreter.anf(expr, stop)
 
-    with SubstituteInterpretation(subs, interpreter.get_interpretation()):
+    with SubstituteInterpretation(subs, interpreter.get_interpretation()) as interp:
         for key, value in env.items():
             args = tuple(
                 c if interpreter.is_atom(c) else env.get(c, c)
@@ -100,6 +105,7 @@ def substitute(expr, subs):
             if isinstance(value, (tuple, frozenset)):  # TODO absorb this into interpret
                 env[key] = type(value)(args)
             else:
+                interp.fresh = value.fresh
                 env[key] = type(value)(*args)
     return env[expr]
 
